@@ -103,6 +103,8 @@ type passOutcome struct {
 	noBytes     bool // the mode hands no bytes to the caller (tar-readfile, ociconfig, tar-walk)
 	walk        bool // tar-walk: the clean end is only judged when the source was drained
 	seekWorked  bool // an arbitrary Seek succeeded: the bytes handed out are no longer the whole stream
+	usedWriterTo bool
+	infraErr     string
 }
 
 // loopHooks are actions interleaved with the Read calls of pass 0 (loop mode).
@@ -320,14 +322,54 @@ func consume(c *Case, p int, br *blob.BReader, last bool, w world, desc descript
 		whole(io.ReadAll(&spinGuard{r: br, o: o}))
 	case "rawbody":
 		whole(br.RawBody())
-	case "copy":
+	// The copy consumers hand io.Copy the very value the API returned (never a wrapper), so that any
+	// io.WriterTo / io.ReaderFrom fast path of the reader type or of the destination is taken as in
+	// real callers (regctl blob get: io.Copy(os.Stdout, blob)).
+	case "copy": // destination without ReadFrom: only a WriterTo of the source can short-cut
 		var buf bytes.Buffer
-		_, err := io.Copy(plainWriter{&buf}, &spinGuard{r: br, o: o})
+		_, err := io.Copy(plainWriter{&buf}, br)
 		whole(buf.Bytes(), err)
-	case "copybuf":
+	case "copy-direct": // destination with ReadFrom (bytes.Buffer)
 		var buf bytes.Buffer
-		_, err := buf.ReadFrom(&spinGuard{r: br, o: o})
+		_, err := io.Copy(&buf, br)
 		whole(buf.Bytes(), err)
+	case "copybuf": // the destination's ReadFrom called directly
+		var buf bytes.Buffer
+		_, err := buf.ReadFrom(br)
+		whole(buf.Bytes(), err)
+	case "copybuffer": // io.CopyBuffer with a caller-supplied buffer
+		var buf bytes.Buffer
+		size := 1
+		if len(c.ReadBufs) > 0 && c.ReadBufs[0] > 0 {
+			size = c.ReadBufs[0]
+		}
+		_, err := io.CopyBuffer(plainWriter{&buf}, br, make([]byte, size))
+		whole(buf.Bytes(), err)
+	case "copy-file": // *os.File destination (its ReadFrom / the source's WriteTo, whichever io.Copy picks)
+		f, ferr := os.CreateTemp("", "c01-copy-")
+		if ferr != nil {
+			o.infraErr = ferr.Error()
+			return o
+		}
+		_, err := io.Copy(f, br)
+		_ = f.Close()
+		b, rerr := os.ReadFile(f.Name())
+		_ = os.Remove(f.Name())
+		if rerr != nil {
+			o.infraErr = rerr.Error()
+			return o
+		}
+		whole(b, err)
+	case "writeto": // the reader's own WriteTo, when the returned type offers one (resolved dynamically)
+		var buf bytes.Buffer
+		if wt, ok := any(br).(io.WriterTo); ok {
+			o.usedWriterTo = true
+			_, err := wt.WriteTo(plainWriter{&buf})
+			whole(buf.Bytes(), err)
+		} else {
+			_, err := io.Copy(plainWriter{&buf}, br)
+			whole(buf.Bytes(), err)
+		}
 	}
 	// reads continuing after the end
 	readLoop(br, o, []int{16, 1, 0}, 0, -1, c.PostReads, 0, nil)
@@ -646,6 +688,13 @@ func check(c Case, ev *evid.Collector) *evid.Violation {
 		} else {
 			o = consume(&c, p, br, last, w, desc, cancelCtx)
 		}
+		if o.infraErr != "" {
+			violation = &evid.Violation{Sig: "harness-infra", Msg: o.infraErr}
+			return finish()
+		}
+		if o.usedWriterTo {
+			labels = append(labels, "reader:offers-WriterTo")
+		}
 		if o.seekWorked {
 			// an arbitrary seek succeeded: the caller no longer reads the whole stream, nothing is judged
 			labels = append(labels, "reads:arbitrary-seek-succeeded-unjudged")
@@ -955,7 +1004,7 @@ func TestVerifBoundary(t *testing.T) {
 									return
 								}
 							}
-							for _, mode := range []string{"readall", "copy", "tar-rawbody", "tar-readfile", "ociconfig"} {
+							for _, mode := range []string{"readall", "copy", "copy-direct", "writeto", "tar-rawbody", "tar-readfile", "ociconfig"} {
 								c := base
 								c.Mode = mode
 								if !run(c) {
